@@ -59,6 +59,7 @@ func diffUtxo(d *diff, pfx string, a, b *types.UtxoEntry) {
 func TestC14_Storage(t *testing.T) {
 	rapid.Check(t, func(t *rapid.T) {
 		c := newCtx(t, "storage")
+		defer codePanic(c)
 		g := &gen.Tags{}
 		loc := gen.Location(t, "loc")
 		db := newDB(loc)
@@ -83,10 +84,14 @@ func TestC14_Storage(t *testing.T) {
 			for i := range rs {
 				d := &diff{}
 				diffReceipt(d, fmt.Sprintf("[%d].", i), rs[i], got[i])
+				locked := rs[i].Status == types.ReceiptStatusLocked
+				if locked && known(fpReceiptLocked) {
+					d.dropFields("status") // exactly the known class: the other stored fields are still compared
+				}
 				if !d.ok() {
 					fp := "C14/db/receipts/accessors"
-					if rs[i].Status == types.ReceiptStatusLocked && d.fields() == ".status" {
-						fp = "C14/receipt/status-locked-stored-as-successful"
+					if locked && d.fields() == ".status" {
+						fp = fpReceiptLocked
 					}
 					c.fail(fp, "receipt differs through the database: %s", d)
 				}
@@ -117,8 +122,9 @@ func TestC14_Storage(t *testing.T) {
 			d.eq("type", r.Type, rr.Type)
 			d.eq("cumulativeGasUsed", r.CumulativeGasUsed, rr.CumulativeGasUsed)
 			d.eq("bloom", r.Bloom, rr.Bloom)
-			if r.Status != types.ReceiptStatusLocked {
-				d.eq("status", r.Status, rr.Status)
+			d.eq("status", r.Status, rr.Status)
+			if r.Status == types.ReceiptStatusLocked && known(fpReceiptLocked) {
+				d.dropFields("status")
 			}
 			if len(r.Logs) != len(rr.Logs) {
 				d.addf("logs", "len %d != %d", len(r.Logs), len(rr.Logs))
@@ -128,10 +134,16 @@ func TestC14_Storage(t *testing.T) {
 				}
 			}
 			if !d.ok() {
-				c.fail("C14/receipt/rlp/accessors", "consensus RLP round trip of a receipt differs: %s", d)
+				fp := "C14/receipt/rlp/accessors"
+				if r.Status == types.ReceiptStatusLocked && d.fields() == "status" {
+					fp = fpReceiptLocked
+				}
+				c.fail(fp, "consensus RLP round trip of a receipt differs: %s", d)
 			}
-			if len(r.OutboundEtxs) > 0 && len(rr.OutboundEtxs) != len(r.OutboundEtxs) {
-				c.fail("C14/receipt/rlp/outbound-etxs-dropped", "Receipt.DecodeRLP drops the %d outbound ETXs that EncodeRLP wrote", len(r.OutboundEtxs))
+			if len(r.OutboundEtxs) > 0 && known(fpReceiptRlpEtxs) {
+				g.Add("receipt:rlp_reencode_excluded")
+			} else if len(r.OutboundEtxs) > 0 && len(rr.OutboundEtxs) != len(r.OutboundEtxs) {
+				c.fail(fpReceiptRlpEtxs, "Receipt.DecodeRLP drops the %d outbound ETXs that EncodeRLP wrote", len(r.OutboundEtxs))
 			} else if enc2, _ := rlp.EncodeToBytes(&rr); !bytes.Equal(enc, enc2) {
 				c.fail("C14/receipt/rlp/reencode", "consensus RLP re-encoding differs")
 			}
@@ -146,11 +158,17 @@ func TestC14_Storage(t *testing.T) {
 				} else {
 					d := &diff{}
 					diffReceipt(d, "", r, (*types.Receipt)(&sr))
-					if f := d.fields(); f != "" && (r.Status != types.ReceiptStatusLocked || f != "status") {
+					if r.Status == types.ReceiptStatusLocked {
+						d.dropFields("status") // same status collapse as on the proto path (fpReceiptLocked)
+					}
+					if known(fpReceiptStorageRlp) {
+						d.dropFields("txHash", "contractAddress", "gasUsed") // the known class; the rest is still compared
+					}
+					if f := d.fields(); f != "" {
 						fp := "C14/receiptforstorage/rlp/accessors"
-						if rest := strings.Trim(strings.NewReplacer("txHash", "", "contractAddress", "", "gasUsed", "", "status", "").Replace(f), "+"); rest == "" {
+						if rest := strings.Trim(strings.NewReplacer("txHash", "", "contractAddress", "", "gasUsed", "").Replace(f), "+"); rest == "" {
 							// EncodeRLP never fills TxHash, ContractAddress and GasUsed of the stored form
-							fp = "C14/receiptforstorage/rlp/implementation-fields-dropped"
+							fp = fpReceiptStorageRlp
 						}
 						c.fail(fp, "storage RLP round trip of a receipt differs: %s", d)
 					}
